@@ -11,7 +11,7 @@ Definition conv (b : base) (v : pyval) : option num :=
   | BInt, PInt z => Some (NI z)
   | BInt, PFloat (FFin m) => if m mod 1000000 =? 0 then Some (NI (m / 1000000)) else None
   | BInt, PStr s => option_map NI (parse_int_str s)
-  | BFloat, PInt z => Some (NF (FFin (z * 1000000)))
+  | BFloat, PInt z => option_map NF (float_of_int z)    (* as base type: the nearest double *)
   | BFloat, PFloat f => Some (NF f)
   | BFloat, PStr s => option_map NF (parse_float_str s)
   | _, _ => None
